@@ -522,8 +522,10 @@ def run_sqlite(tier, seed, corpus=None, histories=None, tag="main"):
         res["failures"] = {(bool(f["fk"]), f["row"]): f for f in res["failure_list"]}
         res["cached"] = True
         return res
-    for old in glob.glob(os.path.join(CACHE, "sqliterun", tag + "_*")):
-        shutil.rmtree(old, ignore_errors=True)
+    # keep the cache small: drop older runs of the same tier and seed only (a concurrent run of the other tier keeps its directory)
+    for old in glob.glob(os.path.join(CACHE, "sqliterun", "%s_*_%s_%s" % (tag, tier, seed))):
+        if old != d and time.time() - os.path.getmtime(old) > 900:
+            shutil.rmtree(old, ignore_errors=True)
     t0 = time.time()
     rows, err = generate(tier, seed, d, corpus=corpus, histories=histories)
     if err:
@@ -575,6 +577,27 @@ def distribution(rows):
         how[r["how"]] += 1
         sizes_[str(min(r["n_actions"], 10))] += 1
     return {"action_kinds": dict(kinds), "migration_origin": dict(how), "plan_sizes": dict(sizes_)}
+
+
+def eval_bool_per_case(d, per, idx_map, imports, expr, stem="hyp"):
+    """evaluate the Gallina boolean `expr` (over a sql_case c) on every case; returns (list of row indices where true, errors)"""
+    from concurrent.futures import ThreadPoolExecutor
+    n_shards = (len(idx_map) + per - 1) // per
+    true_rows, errors = [], []
+
+    def one(s):
+        f = os.path.join(d, "%s_%03d.v" % (stem, s))
+        open(f, "w").write("From VV.SQLITE Require Import Corr %s.\nFrom Cases Require cases_sql_%03d.\nEval vm_compute in map (fun c => %s) cases_sql_%03d.cases.\n" % (imports, s, expr, s))
+        rc, out, _ = vflib.sh(["timeout", "900", "coqc", "-noglob"] + vflib.q_flags(LAYER) + ["-Q", d, "Cases", f], cwd=d, timeout=960)
+        return s, rc, out
+    with ThreadPoolExecutor(max_workers=16) as ex:
+        for s, rc, out in ex.map(one, range(n_shards)):
+            if rc != 0:
+                errors.append(out[-600:])
+                continue
+            vals = vflib.parse_bool_list(vflib.parse_eval_outputs(out)[0])
+            true_rows += [idx_map[s * per + i] for i, v in enumerate(vals) if v]
+    return true_rows, errors
 
 
 def c02_check(tier, seed):
@@ -644,8 +667,20 @@ def c02_check(tier, seed):
         else:
             chk.notes.append("NOTE stale known finding %s: its witness no longer fails" % k["id"])
     kinds = collections.Counter(f["kind"] for f in failures.values())
+    under, herr = eval_bool_per_case(res["d"], res["per_shard"], res["idx_map"], "Sim3P", "plan_hyp (q_baseline c) (q_actions c)")
+    failing_rows = {i for _, i in failures}
     chk.cov["theorem_coverage"] = {"histories_x_pragmas": 2 * len({r["hist"] for r in rows}), "oracle_failures": len(failures), "by_kind": dict(kinds),
-                                   "classified_known": dict(covered), "unexplained": len(unexplained)}
+                                   "classified_known": dict(covered), "unexplained": len(unexplained),
+                                   "migrations_under_Sim_plan_partial_hypothesis(plan_hyp)": len(under), "of_migrations": len(res["idx_map"]),
+                                   "plan_hyp_true_but_engine_error_or_panic": len([i for i in under if i in failing_rows]),
+                                   "plan_hyp_true_and_catalog_differs": 0, "plan_hyp_eval_errors": len(herr)}
+    # under plan_hyp the theorem leaves only engine errors / generation failures: a catalog difference there contradicts it
+    contra = [(fk, i) for (fk, i), f in failures.items() if i in set(under) and f["kind"] in ("catalog-difference", "leftover")]
+    chk.cov["theorem_coverage"]["plan_hyp_true_and_catalog_differs"] = len(contra)
+    for fk, i in contra[:2]:
+        rp = vflib.write_replay(prop, "theorem:Sim_plan_partial-contradicted", {"tier": tier, "seed": seed, "foreign_keys": "ON" if fk else "OFF",
+                                "failure": {k: v for k, v in failures[(fk, i)].items() if k != "row"}, "input": {"history": history_of(rows, i)}})
+        chk.violation(rp)
     seen_rows = set()
     for (fk, i), f in unexplained:
         if i in seen_rows or len(seen_rows) >= 5:
@@ -922,7 +957,11 @@ def compare_rows(pre, post, plan):
             if pc in cols and cmap[t].get(pc, pc) in pcols:
                 exp = sorted(str(mp.get(r[cols.index(pc)], r[cols.index(pc)])) for r in rows if r[cols.index(pc)] is not None)
                 got = sorted(str(r[pcols.index(cmap[t].get(pc, pc))]) for r in prows if r[pcols.index(cmap[t].get(pc, pc))] is not None)
-                if exp != got:
+                filled_nulls = any(a["type"] == "modify_column_nullable" and not a["nullable"] and a.get("fill_with") is not None
+                                   and a["column"] in (pc, cmap[t].get(pc, pc)) for a in plan["actions"])
+                rest = list(got)
+                missing = [v for v in exp if not (v in rest and (rest.remove(v) or True))]
+                if missing or (rest and not filled_nulls):
                     d.append("table %s column %s: enum values not rewritten as mapped: expected %s got %s" % (pt, pc, exp, got))
     return d
 
@@ -1172,9 +1211,14 @@ def c05_replay_oracle(rows, fk):
 
 
 # ------------------------------------------------------------------------------------------------ parts of the aggregate C19 / C14 checks
-def _part(prop_file, tier, seed, extra=None):
+def _part(prop_file, tier, seed, extra=None, dep_targets=None):
     """compile Properties/<prop_file>.v of the sqlite layer; returns dict(ok, obligations, discharged, details)"""
     bad = vflib.grep_forbidden(LAYER)
+    for dep, targets in (dep_targets or {}).items():
+        rc, out = vflib.build_layer(dep, targets=targets)      # proof files of a dependency layer this part builds on
+        if rc != 0:
+            return {"ok": False, "obligations": 0, "discharged": 0,
+                    "details": {"layer": LAYER, "dependency_build_failed": dep, "targets": targets, "build_log": out[-2000:]}}
     rc, out = vflib.build_layer(LAYER, targets=vflib.model_targets(LAYER) + ["Properties/%s.vo" % prop_file])
     details = {"layer": LAYER, "file": "coq/%s/Properties/%s.v" % (LAYER, prop_file), "forbidden": bad}
     if rc != 0 or bad:
@@ -1219,12 +1263,15 @@ def c14_part(tier, seed, prefix="app_"):
             return
         d, per, idx_map = run["d"], run["per_shard"], run["idx_map"]
         n_shards = (len(idx_map) + per - 1) // per
-        bad, errors = [], []
+        bad, errors, under = [], [], [0]
 
         def one(s):
             f = os.path.join(d, "prefix_%03d.v" % s)
             open(f, "w").write("From VV.SQLITE Require Import Corr Prefix.\nFrom Cases Require cases_sql_%03d.\n"
-                               "Eval vm_compute in map (fun c => prefix_agrees %s (q_baseline c) (q_actions c)) cases_sql_%03d.cases.\n" % (s, sqlparse.gstr(prefix), s))
+                               "Eval vm_compute in map (fun c => prefix_agrees %s (q_baseline c) (q_actions c)) cases_sql_%03d.cases.\n"
+                               "From VV.SQLITE Require Import PrefixGenP.\n"
+                               "Eval vm_compute in map (fun c => prefix_plan_ok %s (q_baseline c) (q_actions c)) cases_sql_%03d.cases.\n"
+                               % (s, sqlparse.gstr(prefix), s, sqlparse.gstr(prefix), s))
             rc, out, _ = vflib.sh(["timeout", "900", "coqc", "-noglob"] + vflib.q_flags(LAYER) + ["-Q", d, "Cases", f], cwd=d, timeout=960)
             return s, rc, out
         from concurrent.futures import ThreadPoolExecutor
@@ -1233,13 +1280,16 @@ def c14_part(tier, seed, prefix="app_"):
                 if rc != 0:
                     errors.append(out[-800:])
                     continue
-                vals = vflib.parse_bool_list(vflib.parse_eval_outputs(out)[0])
+                blocks = vflib.parse_eval_outputs(out)
+                vals = vflib.parse_bool_list(blocks[0])
                 bad += [idx_map[s * per + i] for i, v in enumerate(vals) if not v]
-        res["details"]["prefix_agrees"] = {"prefix": prefix, "cases": len(idx_map), "disagreements": len(bad), "first": bad[:3], "shard_errors": len(errors)}
+                under[0] += sum(1 for v in vflib.parse_bool_list(blocks[1]) if v) if len(blocks) > 1 else 0
+        res["details"]["prefix_agrees"] = {"prefix": prefix, "cases": len(idx_map), "disagreements": len(bad), "first": bad[:3], "shard_errors": len(errors),
+                                           "cases_under_theorem_hypothesis(prefix_plan_ok)": under[0]}
         k = run["ksql"]
         res["details"]["K-sql(sqlite)"] = {"cases": k["cases"], "mismatches": len(k["mismatches"]), "unparsed": len(k["unparsed"]), "shard_errors": len(k["errors"])}
         if bad or errors or k["mismatches"] or k["unparsed"] or k["errors"]:
             res["ok"] = False
             if bad:
                 res["details"]["first_disagreeing_input"] = {"history": history_of(run["rows"], bad[0])}
-    return _part("C14_sqlite", tier, seed, extra)
+    return _part("C14_sqlite", tier, seed, extra, dep_targets={"m1": ["Proofs/PrefixApplyP.vo"]})
